@@ -41,8 +41,10 @@
   Texts are `List Char` (Python `str` and `List Char` are both indexed by code point), positions are
   `Nat`, the running `offset` is an `Int` as in Python, slices follow Python's rules for negative and
   out-of-range indices (`pyIdx`).  The tag regex is modelled on the characters (`findTag`); the
-  tokenizer-based `_get_metadata_end` is a PARAMETER (`findEnd : Nat → Option Nat`), and so is
-  `eval` + pickle + hex of a literal (`enc`, or a replacement text per range).
+  search loop and the splice loop take `_get_metadata_end` as a PARAMETER (`findEnd : Nat → Option Nat`; it was based
+  on CPython's tokenizer); since repo fix e40192c it is a pure character scanner, modelled as `metadataEnd` and plugged
+  in by `metadataRangesOwn` / `encodeAllOwn`.  `eval` + pickle + hex of a literal stays a parameter (`enc`, or a
+  replacement text per range).
   Lean core only.
 -/
 namespace AY.MetaText
@@ -191,6 +193,86 @@ def encodeAllLit (findEnd : Nat → Option Nat) (enc : List Char → List Char) 
   match metadataRanges findEnd data with
   | .error e => .error e
   | .ok rs => .ok (encodeLoop enc data 0 rs)
+
+/-! ### `_get_metadata_end`: the character scanner (repo fix e40192c)
+
+      def _get_metadata_end(data, beg):
+          pos = beg + 2
+          depth = 0
+          while pos < len(data):
+              char = data[pos]
+              if char in '\'"':
+                  quote = data[pos:pos+3] if data[pos:pos+3] in ("'''", '"""') else char
+                  pos += len(quote)
+                  while pos < len(data) and not data.startswith(quote, pos):
+                      pos += 2 if data[pos] == '\\' else 1
+                  pos += len(quote)
+                  continue
+              if char in '([{':
+                  depth += 1
+              elif char in ')]}':
+                  if depth == 0:
+                      return pos + 2 if data.startswith('}}', pos) else None
+                  depth -= 1
+              pos += 1
+          return None
+-/
+
+/-- `char in '([{'` -/
+def isOpen (c : Char) : Bool := c = '(' || c = '[' || c = '{'
+
+/-- `char in ')]}'` -/
+def isClose (c : Char) : Bool := c = ')' || c = ']' || c = '}'
+
+/-- `char in '\'"'` -/
+def isQuote (c : Char) : Bool := c = '\'' || c = '"'
+
+/-- the quote that opens at the head of `l` = `data[pos:]`: three equal quote characters, else one; `none`: no quote here -/
+def quoteAt : List Char → Option (List Char)
+  | '\'' :: '\'' :: '\'' :: _ => some ['\'', '\'', '\'']
+  | '"' :: '"' :: '"' :: _ => some ['"', '"', '"']
+  | '\'' :: _ => some ['\'']
+  | '"' :: _ => some ['"']
+  | _ => none
+
+/-- the inner `while` and the `pos += len(quote)` after it: `l` = `data[pos:]` just behind the opening quote; returns
+    the position behind the closing quote (beyond `len(data)` when the string is not terminated) -/
+def skipString (quote : List Char) : List Char → Nat → Nat
+  | [], pos => pos + quote.length
+  | c :: cs, pos =>
+    if quote.isPrefixOf (c :: cs) then pos + quote.length
+    else if c = '\\' then
+      match cs with
+      | [] => pos + 2 + quote.length
+      | _ :: rest => skipString quote rest (pos + 2)
+    else skipString quote cs (pos + 1)
+
+/-- the outer `while pos < len(data):` loop, one turn per unit of fuel; state = (`pos`, `depth`) -/
+def scanEnd (data : List Char) : Nat → Nat → Nat → Option Nat
+  | 0, _, _ => none
+  | fuel + 1, pos, depth =>
+    match data.drop pos with
+    | [] => none
+    | c :: cs =>
+      match quoteAt (c :: cs) with
+      | some q => scanEnd data fuel (skipString q ((c :: cs).drop q.length) (pos + q.length)) depth
+      | none =>
+        if isOpen c then scanEnd data fuel (pos + 1) (depth + 1)
+        else if isClose c then
+          if depth = 0 then (if (c :: cs).take 2 = ['}', '}'] then some (pos + 2) else none)
+          else scanEnd data fuel (pos + 1) (depth - 1)
+        else scanEnd data fuel (pos + 1) depth
+
+/-- `_get_metadata_end(data, beg)`; every turn of the loop moves `pos` forward, so `len(data) + 1` turns are enough
+    (`C01_end_fuel_irrelevant`) -/
+def metadataEnd (data : List Char) (beg : Nat) : Option Nat := scanEnd data (data.length + 1) (beg + 2) 0
+
+/-- `list(_get_metadata_content(data))` with the real end finder: no parameter left -/
+def metadataRangesOwn (data : List Char) : Except MetaErr (List (Nat × Nat)) := metadataRanges (metadataEnd data) data
+
+/-- `_encode_all_metadata(data)` with the real end finder; `enc` = `':' + pickle(eval(·)).hex()` -/
+def encodeAllOwn (enc : List Char → List Char) (data : List Char) : Except MetaErr (List Char) :=
+  encodeAllLit (metadataEnd data) enc data
 
 /-! ### `_decode_metadata`: special names / user metadata -/
 
